@@ -226,7 +226,7 @@ def cases(run):
         yield f"lift {ptok} {ref} {enc_vars(shift([v, w], off), True)} {rng.choice('+-')} {enc_blocks(shiftb(bl, off))}"
     run.exhaustive = True
     # random: longer references, 1..3 variants, up to 4 blocks
-    m = 1500 if quick else 40000
+    m = 5000 if quick else 40000
     for _ in range(m):
         ln = rng.randint(5, 40)
         ref = rand_ref(rng, ln)
@@ -254,7 +254,7 @@ def cases(run):
         yield f"altseq W {ref} 1 {s + 2} {s} A"
         yield f"altseq W {ref} 1 10 14 A"
     # VCF grouping
-    for _ in range(300 if quick else 6000):
+    for _ in range(800 if quick else 6000):
         nrec = rng.randint(1, 6)
         chroms = sorted(rng.choice(["chr1", "chr2", "II"]) for _ in range(nrec))
         if rng.random() < 0.1:
